@@ -24,6 +24,8 @@ def generate_all():
     info["obligations"]["C10"] = gen_bind.generate()
     import gen_shmem
     info["obligations"]["C19"] = gen_shmem.generate()
+    import gen_conc
+    info["obligations"]["C17"] = gen_conc.generate()
     import gen_restrict
     info["obligations"]["C08"] = gen_restrict.generate()
     return info
